@@ -163,6 +163,11 @@ func (ds *Describer) d1(v ssa.Value, depth int) *VD {
 		}
 		return &VD{Kind: "const", Name: x.Value.ExactString()}
 	case *ssa.Global:
+		// a package-level numeric constant object (`var hundred = big.NewInt(100)`), assigned once in the package
+		// initialiser and nowhere else: described as the constructor call it stands for
+		if iv := numericGlobalInit(x); iv != nil {
+			return ds.d(iv, depth+1)
+		}
 		return &VD{Kind: "global", Name: x.Name()}
 	case *ssa.Function:
 		return &VD{Kind: "func", Name: FnKey(x)}
@@ -483,4 +488,77 @@ func CalleeNameOfFirst(fn *ssa.Function, name string) string {
 		}
 	}
 	return ""
+}
+
+var numericGlobalMemo = map[*ssa.Global]ssa.Value{}
+
+// numericGlobalInit: the call `big.NewInt(c)` / `uint256.NewInt(c)` stored into the package-level variable g by the
+// package initialiser, when nothing else in the package stores to g; nil otherwise.
+func numericGlobalInit(g *ssa.Global) ssa.Value {
+	if v, ok := numericGlobalMemo[g]; ok {
+		return v
+	}
+	numericGlobalMemo[g] = nil
+	if g.Pkg == nil {
+		return nil
+	}
+	var stored ssa.Value
+	n := 0
+	for _, mem := range g.Pkg.Members {
+		fn, isFn := mem.(*ssa.Function)
+		if !isFn {
+			continue
+		}
+		for _, f := range WithClosures(fn) {
+			EachInstr(f, func(in ssa.Instruction) {
+				if st, ok := in.(*ssa.Store); ok && st.Addr == ssa.Value(g) {
+					n++
+					if f.Name() == "init" {
+						stored = st.Val
+					} else {
+						n++
+					}
+				}
+			})
+		}
+	}
+	// methods are not package members: any store from a method disqualifies as well
+	for _, mem := range g.Pkg.Members {
+		t, isT := mem.(*ssa.Type)
+		if !isT {
+			continue
+		}
+		for _, typ := range []types.Type{t.Type(), types.NewPointer(t.Type())} {
+			ms := g.Pkg.Prog.MethodSets.MethodSet(typ)
+			for i := 0; i < ms.Len(); i++ {
+				m := g.Pkg.Prog.MethodValue(ms.At(i))
+				if m == nil || m.Pkg != g.Pkg {
+					continue
+				}
+				for _, f := range WithClosures(m) {
+					EachInstr(f, func(in ssa.Instruction) {
+						if st, ok := in.(*ssa.Store); ok && st.Addr == ssa.Value(g) {
+							n += 2
+						}
+					})
+				}
+			}
+		}
+	}
+	if n != 1 || stored == nil {
+		return nil
+	}
+	call, ok := stored.(*ssa.Call)
+	if !ok || len(call.Call.Args) != 1 {
+		return nil
+	}
+	name := CalleeName(&call.Call)
+	if name != "math/big.NewInt" && !strings.HasSuffix(name, "uint256.NewInt") {
+		return nil
+	}
+	if _, isC := call.Call.Args[0].(*ssa.Const); !isC {
+		return nil
+	}
+	numericGlobalMemo[g] = stored
+	return stored
 }
